@@ -31,6 +31,9 @@ pub enum Step {
         describe: bool,
         #[serde(default)]
         env: Vec<(String, String)>,
+        /// pass the query as several command-line words (split at its blanks) instead of one
+        #[serde(default, skip_serializing_if = "std::ops::Not::not")]
+        split: bool,
     },
 }
 
@@ -178,7 +181,7 @@ pub fn run_history(ctx: &Ctx, h: &History, work: &Path, rotate: usize) -> Trace 
                 }
                 Some(out)
             }
-            Step::Cli { query, exact, describe, env } => {
+            Step::Cli { query, exact, describe, env, split } => {
                 let mut args = Vec::new();
                 if *exact {
                     args.push("--exact".to_string());
@@ -187,7 +190,13 @@ pub fn run_history(ctx: &Ctx, h: &History, work: &Path, rotate: usize) -> Trace 
                     args.push("--describe".to_string());
                 }
                 args.push("--".to_string());
-                args.push(query.clone());
+                // the program joins its words with one blank: splitting at single blanks is the same query
+                let splittable = !query.contains("  ") && !query.starts_with(' ') && !query.ends_with(' ') && !query.is_empty();
+                if *split && splittable {
+                    args.extend(query.split(' ').map(|w| w.to_string()));
+                } else {
+                    args.push(query.clone());
+                }
                 let out = ctx.launcher.any(&xdg, work, &args, env);
                 if let Some(e) = out.harness_error() {
                     trace.harness_errors.push(format!("step {i}: {e}"));
@@ -736,7 +745,7 @@ pub fn judge_c19(ctx: &Ctx, h: &History, trace: &Trace) -> Vec<Violation> {
     let library_opens = trace.steps.iter().filter_map(|s| s.child.as_ref()).flat_map(|c| builds(c)).any(|b| b.mode == "disk" && b.error.is_none());
     let mut seen: BTreeMap<(String, bool), (usize, String)> = BTreeMap::new();
     for (i, s) in h.steps.iter().enumerate() {
-        let Step::Cli { query, exact, describe, env } = s else { continue };
+        let Step::Cli { query, exact, describe, env, .. } = s else { continue };
         if !library_opens {
             continue;
         }
